@@ -23,7 +23,8 @@ func zzMakeTable(NR, NF, FL int, delim byte) *zzTable {
 		for j := 0; j < nf; j++ {
 			f := zz.NondetBytes("field", FL)
 			for _, x := range f {
-				zz.Assume(x >= 0x21 && x <= 0x7E && x != delim && x != '"')
+				zz.Assume(zz.ByteRange(x, 0x21, 0x7E))
+				zz.Assume(!zz.ByteIn(x, string([]byte{delim, '"'})))
 			}
 			if j > 0 {
 				t.input = append(t.input, delim)
